@@ -324,6 +324,8 @@ class SR:
         if isinstance(n, float) and n * 2 == int(n * 2) and n > 0:
             # x ** (k/2) for x >= 0
             return s.sqrt() ** int(n * 2)
+        if isinstance(n, float) and n * 2 == int(n * 2) and n < 0:
+            return 1 / (s ** (-n))
         if not isinstance(n, int):
             import numpy as np
             if isinstance(n, np.integer):
@@ -472,6 +474,8 @@ def _to_sympy(e, syms):
         return ch[0] / ch[1]
     if k == z3.Z3_OP_UMINUS:
         return -ch[0]
+    if k == z3.Z3_OP_POWER and ch[1].is_Integer:
+        return ch[0] ** ch[1]
     raise NotImplementedError(str(e.decl()))
 
 
